@@ -19,18 +19,27 @@ REQUIRED_TRIVIA = {' ': 'blank', '\t': 'tab', '\x0c': 'form feed', '\n': 'newlin
 
 
 def white_space_alphabet():
-    prog = E.prog()
-    prods = gprod.productions(prog)
-    kind, body, outer = prods['white_space']
-    txt = gprod.callees_text(prog, body)
-    prims = set(re.findall(r'nom::character::complete::(\w+)::<', txt))
+    """which single characters the real white_space production accepts outside directives, decided by Engine L: the production
+    body is executed from MIR on a 1-byte text whose byte is symbolic over the required trivia characters plus controls"""
+    import z3
+    import lexengine as L
+    prods = gprod.productions(E.prog())
+    alphabet = ''.join(REQUIRED_TRIVIA) + '\r\x0bx'
+    res, ex, lx = L.run_lexer(('production', 'white_space'), 1, alphabet, prods)
+    if ex.truncated:
+        raise Inconclusive('white_space on 1-byte texts: budget exhausted')
     chars = set()
-    for p in prims:
-        chars |= set(NOM_CHARSETS.get(p, ''))
-    for m in re.finditer(r'nom::bytes::complete::(?:is_a|take_while1?)::<[^;]*?\(const "((?:[^"\\]|\\.)*)"', txt):
-        from mir import unescape
-        chars |= set(unescape(m.group(1)))
-    return prims, chars
+    for c in alphabet:
+        for rp in res:
+            if rp.outcome == 'ok' and rp.value and rp.value[0] == 'ok' and rp.value[1] == 1:
+                sol = z3.Solver()
+                for cnd in rp.pc:
+                    sol.add(cnd)
+                sol.add(lx.b[0] == ord(c))
+                if sol.check() == z3.sat:
+                    chars.add(c)
+                    break
+    return {'paths': len(res), 'queries': ex.solver_checks}, chars
 
 
 class Item:
@@ -47,8 +56,9 @@ def families(args):
         name = item.label
         if name == '@alphabet':
             prims, chars = white_space_alphabet()
-            out = gcheck.base_case('trivia-alphabet', name, 'white_space primitives %s accept %r' % (sorted(prims), ''.join(sorted(chars))), None)
-            out['real_paths'] = out['pairs'] = 1
+            out = gcheck.base_case('trivia-alphabet', name, 'white_space accepts the 1-byte texts %r (of %r)' % (''.join(sorted(chars)), ''.join(REQUIRED_TRIVIA) + '\r\x0bx'), None)
+            out['real_paths'] = out['pairs'] = prims['paths']
+            out['queries'] = prims['queries']
             for c, what in REQUIRED_TRIVIA.items():
                 if c not in chars:
                     nat = E.native()
@@ -58,6 +68,13 @@ def families(args):
                     out['cex'].append({'kind': 'scope', 'note': 'white_space does not accept %s (%r): module%sm; endmodule parses %s, the blank variant %s' % (
                         what, c, c, 'Ok' if a.get('ok') else a.get('error'), 'Ok' if b.get('ok') else b.get('error')), 'model': None,
                         'status': 'reproduced' if rep else 'not_reproduced', 'role': 'F7:form-feed-not-white-space' if c == '\x0c' else 'trivia-char:%r' % c})
+            for c, what in (('\x0b', 'vertical tab'),):
+                if c in chars:
+                    nat = E.native()
+                    a = nat.request({'cmd': 'parse', 'text': 'module m;' + c + 'endmodule\n', 'path': 't.sv', 'want': ['skeleton']}, cache=False)
+                    out['cex'].append({'kind': 'scope', 'note': 'white_space accepts %s (%r), which is not white space in IEEE 1800-2017 5.3: module m;%sendmodule parses %s' % (
+                        what, c, c, 'Ok' if a.get('ok') else a.get('error')), 'model': None, 'status': 'reproduced' if a.get('ok') else 'not_reproduced',
+                        'role': 'non-trivia-char:%r' % c})
             return out
         r = results.get(name)
         out = gcheck.base_case('scope-pairing', name, '%d paths' % len(r.get('paths', [])) if r else '', r)
